@@ -9,6 +9,7 @@ import Driver.Editions
 import Driver.Mem
 import Driver.Conn
 import Driver.Enc
+import Driver.Dec
 /-
   udsdrv: one request per line on stdin, one answer per line on stdout.  Imports Model and Spec only.
 -/
@@ -25,6 +26,7 @@ def dispatch (cmd : String) (a : Args) : Except String String :=
   else if cmd.startsWith "ml." then Drv.Mem.run cmd a
   else if cmd == "conn" || cmd == "qconn" then Drv.Conn.run cmd a
   else if cmd == "enc" || cmd == "specdec" then Drv.Enc.run cmd a
+  else if cmd == "dec" then Drv.Dec.run cmd a
   else throw s!"unknown command {cmd}"
 
 partial def loop (hin hout : IO.FS.Stream) : IO Unit := do
